@@ -143,23 +143,29 @@ func (x *c05Exec) put(id []byte, n int, check bool, ev string) bool {
 		// alternative reading: the distance itself read little-endian (what inRadius does)
 		x.v6("refused-only-at-or-beyond-radius", site(!rev(dist).Lt(radiusBefore), "ContentStorage.Put"), fmt.Sprintf("%s: refused for insufficient radius although distance %s < radius %s", ev, dist.Hex(), radiusBefore.Hex()))
 	}
-	// one report per reading: the first item beyond the radius as stated but within it when read
-	// byte-reversed (the recorded finding), and the first item beyond it under both readings
-	var onlyStated, both *uint256.Int
+	// one report per reading. An item beyond the radius as stated is explained by the recorded
+	// little-endian decoding if it is within the radius (R) with the radius read byte-reversed —
+	// what a prune leaves behind, pebble orders keys big-endian — or (L) with its own distance
+	// read little-endian — what admission (inRadius) enforces. The first item of each kind is
+	// reported; one that fails under all readings carries the bare fingerprint.
+	firstOf := map[string]*uint256.Int{}
 	for _, it := range after {
 		if d := beUint(it.K); d.Gt(radiusAfter) { // "within" includes the boundary
-			if d.Gt(rev(radiusAfter)) {
-				if both == nil {
-					both = d
-				}
-			} else if onlyStated == nil {
-				onlyStated = d
+			kind := ""
+			switch {
+			case !d.Gt(rev(radiusAfter)):
+				kind = ":holds-only-with-radius-read-byte-reversed"
+			case !rev(d).Gt(radiusAfter):
+				kind = ":holds-only-with-distance-read-little-endian"
+			}
+			if firstOf[kind] == nil {
+				firstOf[kind] = d
 			}
 		}
 	}
-	for _, d := range []*uint256.Int{onlyStated, both} {
-		if d != nil {
-			x.v6("retained-within-advertised-radius", site(d == onlyStated, "ContentStorage"), fmt.Sprintf("after %s a retained item lies at distance %s, advertised radius is %s", ev, d.Hex(), radiusAfter.Hex()))
+	for _, kind := range []string{":holds-only-with-radius-read-byte-reversed", ":holds-only-with-distance-read-little-endian", ""} {
+		if d := firstOf[kind]; d != nil {
+			x.v6("retained-within-advertised-radius", "ContentStorage"+kind, fmt.Sprintf("after %s a retained item lies at distance %s, advertised radius is %s", ev, d.Hex(), radiusAfter.Hex()))
 		}
 	}
 	// under the byte-reversed reading alone (not the statement, but it keeps the check
